@@ -1,7 +1,8 @@
 /-
   TwigModel.ParseExpr — the expression parser of parser.go after the precedence-climbing repair:
   parseExpression / parseBinaryPrec / parseOperand / parseSimpleExpression / parseFilters /
-  parseTest / parseConditionalExpression / parseArrayExpression / parseMapExpression.
+  parseTest / parseConditionalExpression / parseArrayExpression / parseMapExpression, and after the
+  repair that lets a subscript bind tighter than a prefix operator (parseSubscript; `-xs[1]` is `-(xs[1])`).
 
   The Go parser walks an index over the token array; here the parser consumes a token list and
   returns the rest.  All functions are structurally recursive on a fuel argument (call depth);
@@ -199,6 +200,21 @@ def parseSuffix : Nat → Expr → List Token → R (Expr × List Token)
       else pure (e, ts)
     | [] => pure (e, ts)
 
+/-- the `[index]` suffixes of the operand of a prefix operator (`parseSubscript` in the loop of
+    `parseSimpleExpression`): a subscript binds tighter than `not` / `-` / `+`; a filter does not -/
+def parseSubs : Nat → Expr → List Token → R (Expr × List Token)
+  | 0, _, _ => .error .fuel
+  | f+1, e, ts =>
+    match ts with
+    | t :: r =>
+      if isP t 91 then do
+        let (i, r') ← parseExpression f r
+        match r' with
+        | c :: r'' => if isP c 93 then parseSubs f (.item e i) r'' else perr "expected closing bracket after array index"
+        | [] => perr "expected closing bracket after array index"
+      else pure (e, ts)
+    | [] => pure (e, ts)
+
 /-- `parseFilters`: ts starts with `|` -/
 def parseFilters : Nat → Expr → List Token → R (Expr × List Token)
   | 0, _, _ => .error .fuel
@@ -224,9 +240,12 @@ def parseSimple : Nat → List Token → R (Expr × List Token)
     match ts with
     | [] => perr "unexpected end of template"
     | t :: r =>
-      if isName t "not" then do let (e, r') ← parseSimple f r; pure (.unary .not e, r')
-      else if t.kind == OPERATOR && t.val == [45] then do let (e, r') ← parseSimple f r; pure (.unary .neg e, r')
-      else if t.kind == OPERATOR && t.val == [43] then do let (e, r') ← parseSimple f r; pure (.unary .pos e, r')
+      if isName t "not" then do
+        let (e, r') ← parseSimple f r; let (e', r'') ← parseSubs f e r'; pure (.unary .not e', r'')
+      else if t.kind == OPERATOR && t.val == [45] then do
+        let (e, r') ← parseSimple f r; let (e', r'') ← parseSubs f e r'; pure (.unary .neg e', r'')
+      else if t.kind == OPERATOR && t.val == [43] then do
+        let (e, r') ← parseSimple f r; let (e', r'') ← parseSubs f e r'; pure (.unary .pos e', r'')
       else if t.kind == STRING then pure (.str (unescapeStr t.val), r)
       else if t.kind == NUMBER then pure (numLit t.val, r)
       else if t.kind == NAME then
